@@ -47,6 +47,26 @@ class C10(MsgProp):
             for _ in range(6 if not thorough else 40):
                 S, G, C = g.msm_sets(r, f["gnss"])
                 cases.append((S, G, C, None))
+            # adversarial listings: nearly sorted inputs (one signal of one satellite moved to the front of its
+            # group, adjacent swaps, reversal), with odd/even and extreme satellite numbers and the table's
+            # first and last identifiers
+            byid = sorted(pool, key=lambda x: ids[x])
+            Gn = list(dict.fromkeys([byid[0], byid[len(byid) // 2], byid[-1]]))
+            for Sn in ([3, 4], [63, 64], [1, 33]):
+                full = [(s_, x) for s_ in Sn for x in Gn]
+                for order in ("last-first", "swap", "reverse"):
+                    if order == "last-first":
+                        Cn = []
+                        for s_ in Sn:
+                            grp = [c for c in full if c[0] == s_]
+                            Cn += [grp[-1]] + grp[:-1]
+                    elif order == "swap":
+                        Cn = list(full)
+                        for i in range(0, len(Cn) - 1, 2):
+                            Cn[i], Cn[i + 1] = Cn[i + 1], Cn[i]
+                    else:
+                        Cn = list(reversed(full))
+                    cases.append((list(Sn), list(Gn), Cn, "order:" + order))
             for inv in ("sat0", "sat65", "badsig", "dupsat", "dupcell", "mismatch-extra-sat", "mismatch-extra-cell", "cells65",
                         "only-sats", "only-cells"):
                 cases.append((None, None, None, inv))
@@ -56,12 +76,15 @@ class C10(MsgProp):
                     if x == dseg:
                         break
                     head += g.frag(r, x, "valid")
-                if inv is None:
+                if inv is None or inv.startswith("order:"):
                     vals = {}
                     perm_ops = []
                     for p in range(2):
                         S2, C2 = list(S), list(C)
-                        r.shuffle(S2); r.shuffle(C2)
+                        if inv is None:
+                            r.shuffle(S2); r.shuffle(C2)
+                        elif p == 0:
+                            S2, C2 = sorted(S2), sorted(C2, key=lambda c: (c[0], ids[c[1]]))   # standard order first
                         # field values keyed by satellite / cell so that permutations carry the same data
                         rows = g.msm_rows(r, f, S2, C2, "valid")
                         rows = self.fix_values(g, f, rows, vals)
@@ -443,7 +466,15 @@ class C19(Prop):
                                        "oracle": "FAIL C19 does not build: " + err[-600:]})
         # per-feature decode drivers
         drv = FeatDriver(ctx, sch)
-        feats_drv = feats if thorough else sorted(r.sample(feats, 3))
+        # rows whose feature, module and number do not name the same message are always exercised
+        suspicious = sorted({row["feature"] for row in sch["dispatch"]
+                             if row["feature"] != "msg%d" % row["number"] or row["module"] != row["feature"]} |
+                            {f for m, f in sch["includes"] if m != f})
+        suspicious = [f for f in suspicious if f in feats]
+        for row in sch["dispatch"]:
+            if "msg%d" % row["number"] in feats and row["feature"] != "msg%d" % row["number"]:
+                suspicious.append("msg%d" % row["number"])
+        feats_drv = feats if thorough else sorted(set(r.sample(feats, 3) + suspicious))
         dres = drv.run(feats_drv)
         for f, ok, why in dres:
             classes["feature-driver"] = classes.get("feature-driver", 0) + 1
